@@ -695,6 +695,78 @@ var rfcTagged = []struct {
 	{"c349010000000000000000", -18446744073709551617},
 	{"c24101", 1},
 	{"c340", -1},
+	{"c24105", 5},                                 // F02-5: was 16645
+	{"c48219010001", 1e256},                       // F10-3: exponent was truncated to int8
+	{"c482381c01", 1e-29},                         // F10-3: was "unexpected EOF"
+	{"c4823901ff01", 0},                           // 10^-512 underflows
+	{"c482181701", 1e23},
+	{"c4821901f401", math.Inf(1)},                 // 10^500
+	{"c482003b7fffffffffffffff", -9223372036854775808},
+	{"c5821b7fffffffffffffff01", math.Inf(1)},     // F10-3: exponent wrapped inside big.Float, read as 0
+	{"c5821b7fffffffffffffff20", math.Inf(-1)},
+	{"c58239043203", 1e-323},                      // 3 * 2^-1075 rounds to 2 * 2^-1074
+	{"c58239043201", 0},                           // tie to even: 0
+	{"c5821903e801", 1.0715086071862673e+301},     // 2^1000
+}
+
+// tag 1 (epoch-based date/time) at the edges of what a time.Time can hold (F10-2): ok = must decode
+var epochEdges = []struct {
+	hex string
+	ok  bool
+}{
+	{"c11bbb80000000000000", false}, // uint64 >= 2^63
+	{"c11b8000000000000000", false},
+	{"c11bffffffffffffffff", false},
+	{"c11b7fffffffffffffff", false}, // 2^63-1
+	{"c11b4000000000000000", true},  // 2^62
+	{"c11b4000000000000001", true},  // 2^62+1: float64 rounds it to 2^62
+	{"c11b4000000000000400", false}, // 2^62+1024
+	{"c11b3fffffffffffffff", true},
+	{"c13b3fffffffffffffff", true},  // -2^62
+	{"c13b4000000000000000", true},  // -2^62-1: float64 rounds it to -2^62
+	{"c13b4000000000000400", false},
+	{"c13b7fffffffffffffff", false}, // -2^63
+	{"c13bffffffffffffffff", false}, // -2^64
+	{"c1fb43d0000000000000", true},  // 2^62 as a double
+	{"c1fb43d0000000000001", false},
+	{"c1fbc3d0000000000000", true},
+	{"c1fbc3d0000000000001", false},
+	{"c1fb7fefffffffffffff", false}, // MaxFloat64
+	{"c1fbffefffffffffffff", false},
+	{"c1fa7f7fffff", false},         // MaxFloat32
+	{"c1fb7ff8000000000000", false}, // NaN
+	{"c1f97e00", false},
+	{"c1fa7fc00000", false},
+	{"c1f97c00", false},             // +Inf
+	{"c1f9fc00", false},             // -Inf
+	{"c1fb7ff0000000000000", false},
+	{"c1fbfff0000000000000", false},
+	{"c1fb41d0000000000000", true},  // 2^30
+	{"c1fbc1e0000000200000", true},  // -2^31 - 1
+	{"c100", true},
+	{"c120", true},
+	{"c1f6", true},                  // nil: the epoch itself
+	{"8201c11bbb80000000000000", false},
+}
+
+func epochStream(c *ctx) {
+	for _, e := range epochEdges {
+		b := unhex(e.hex)
+		for _, D := range []DOpts{{}, {SkipTags: true}, {Signed: true}} {
+			o := decCase(c, "dec.epoch", D, b, nil, false, "tag 1 at the edge of the time.Time range")
+			cj := map[string]interface{}{"bytes": e.hex, "cls": o.cls, "dopts": D.String()}
+			if o.it != nil {
+				cj["decoded"] = o.it.Canon()
+			}
+			if e.ok && o.cls != clsOK {
+				c.sum.FailC("dec.epoch", "in:epoch:rejected", "an epoch within +-2^62 seconds was not decoded", cj)
+			}
+			if !e.ok && o.cls != clsOther {
+				c.sum.FailC("dec.epoch", "in:epoch:out-of-range-accepted", "epoch seconds beyond what time.Time can hold (or NaN / Inf) did not give an error", cj)
+			}
+			c.sum.Count("dec.epoch", fmt.Sprintf("epoch/%s/%v", e.hex, D))
+		}
+	}
 }
 
 func rfcStream(c *ctx) {
@@ -710,6 +782,74 @@ func rfcStream(c *ctx) {
 		}
 		c.sum.Count("dec.rfc", "rfc/"+e.hex)
 	}
+}
+
+// random decimal fractions / bigfloats: the value is computed exactly (big.Rat) and rounded once
+func taggedRandStream(c *ctx, n int) {
+	r := c.r.Fork()
+	intHead := func(v int64) []byte {
+		if v < 0 {
+			return refHead(1, uint64(-1-v), anyWidth(r, uint64(-1-v), true))
+		}
+		return refHead(0, uint64(v), anyWidth(r, uint64(v), true))
+	}
+	for i := 0; i < n; i++ {
+		tag := byte(4 + r.Intn(2))
+		var exp int64
+		if tag == 4 {
+			exp = int64(r.PickInt(0, 1, -1, 22, 23, -22, -23, 37, 127, 128, -128, -129, 255, 256, 308, 309, -323, -324, -343, 400, -400)) + int64(r.Intn(3)) - 1
+			if r.Chance(1, 3) {
+				exp = int64(r.Intn(700)) - 350
+			}
+		} else {
+			exp = int64(r.PickInt(0, 1, -1, 52, 53, 63, 64, 970, 971, 1023, 1024, -1022, -1023, -1074, -1075, -1076, -1137, -1138, 2000, -2000)) + int64(r.Intn(3)) - 1
+			if r.Chance(1, 3) {
+				exp = int64(r.Intn(2400)) - 1200
+			}
+		}
+		mant := int64(randU64(r))
+		if r.Chance(1, 3) {
+			mant = int64(r.Intn(2000)) - 1000
+		}
+		b := append([]byte{0xc0 | tag, 0x82}, intHead(exp)...)
+		b = append(b, intHead(mant)...)
+		base := big.NewInt(10)
+		if tag == 5 {
+			base = big.NewInt(2)
+		}
+		pw := new(big.Int).Exp(base, big.NewInt(abs64(exp)), nil)
+		q := new(big.Rat).SetInt(big.NewInt(mant))
+		if exp >= 0 {
+			q.Mul(q, new(big.Rat).SetInt(pw))
+		} else {
+			q.Quo(q, new(big.Rat).SetInt(pw))
+		}
+		want, _ := q.Float64()
+		o := decCase(c, "dec.rfc", DOpts{}, b, nil, false, "random decimal fraction / bigfloat")
+		cj := map[string]interface{}{"bytes": vh.Hex(b), "cls": o.cls, "exp": exp, "mant": mant, "want": fmt.Sprintf("f64:%016x", math.Float64bits(want))}
+		if o.it != nil {
+			cj["decoded"] = o.it.Canon()
+		}
+		if o.cls != clsOK || o.it == nil || o.it.K != KF64 || (math.Float64frombits(o.it.Bits) != want) || o.nread != len(b) {
+			c.sum.FailC("dec.rfc", fmt.Sprintf("in:tagged-number:tag%d", tag), "a well-formed bignum / decimal fraction / bigfloat did not decode to its value", cj)
+		}
+		c.sum.Count("dec.rfc", fmt.Sprintf("rfcrand/%d/%d/%d", tag, exp, min(63, bitsLen(mant))))
+	}
+}
+
+func abs64(v int64) int64 {
+	if v < 0 {
+		return -v
+	}
+	return v
+}
+
+func bitsLen(v int64) int {
+	n := 0
+	for u := uint64(abs64(v)); u != 0; u >>= 1 {
+		n++
+	}
+	return n
 }
 
 func unhex(s string) []byte {
@@ -1159,6 +1299,8 @@ func main() {
 	decHostileStream(c, valid, *nMut, *nRand)
 	firstByteStream(c, *nFirst)
 	rfcStream(c)
+	taggedRandStream(c, *nLeaf/3)
+	epochStream(c)
 	skipStream(c, valid, *nSkip)
 	leafStream(c, *nLeaf)
 	c.cv.Close()
